@@ -6,6 +6,7 @@ import (
 	"go/token"
 	"go/types"
 	"sort"
+	"strings"
 
 	"golang.org/x/tools/go/packages"
 )
@@ -30,6 +31,8 @@ func init() {
 			{Name: "C13-PENDING", Floor: 2, Doc: "a method that records a status marks it pending (statusSet=true) or commits before returning", Run: nop},
 			{Name: "C13-VALUE", Floor: 2, Doc: "the code handed to the commit is the recorded status", Run: nop},
 			{Name: "C13-OWNER", Floor: 3, Doc: "the raw ResponseWriter is used only inside bufferedWriter's methods; Write/WriteHeader are bufferedWriter's own methods; no interface-typed ResponseWriter is written to elsewhere in the package", Run: nop},
+			{Name: "C13-DISPATCH", Floor: 6, Doc: "each script-facing response method (status, writeHeader, write, redirect, noContent, json, html, header, cookie) reaches the bufferedWriter operation of that name", Run: nop},
+			{Name: "C13-MWORDER", Floor: 0, Doc: "applyMiddlewares: for the recognised shape (sort of a copy by priority + wrapping loop) the comparator direction, the stability of the sort and the wrapping direction together give ascending priority outermost-first with ties in registration order; unrecognised shapes are not judged", Run: nop},
 			{Name: "C13-PAIR", Floor: 4, Doc: "each beginResponse call is followed by defer commitPending on the same writer before any handler code or exit", Run: nop},
 		},
 	})
@@ -451,6 +454,101 @@ func c13Run(r *Run) {
 		}
 	}
 
+	// DISPATCH: script-visible name → the bufferedWriter operation it must perform
+	r.curRule = "C13-DISPATCH"
+	want := map[string][]string{
+		"status": {"SetStatus"}, "writeHeader": {"WriteHeader"}, "write": {"Write"}, "redirect": {"Redirect"},
+		"noContent": {"NoContent"}, "json": {"WriteJSON"}, "html": {"WriteHTML"}, "header": {"Header", "SetHeader"}, "cookie": {"SetCookie"}, "file": {"SendFile"},
+	}
+	declOfFn := map[*types.Func]*ast.FuncDecl{}
+	for _, fd := range funcDecls(pkg) {
+		if o, ok := info.Defs[fd.Name].(*types.Func); ok {
+			declOfFn[o] = fd
+		}
+	}
+	var reaches func(fd *ast.FuncDecl, names []string, d int) bool
+	reaches = func(fd *ast.FuncDecl, names []string, d int) bool {
+		found := false
+		ast.Inspect(fd.Body, func(n ast.Node) bool {
+			c, ok := n.(*ast.CallExpr)
+			if !ok || found {
+				return !found
+			}
+			cal, ok := calleeOf(info, c).(*types.Func)
+			if !ok {
+				return true
+			}
+			if methods[cal] != nil || (cal.Name() == "Header" && cal.Pkg() != nil) {
+				for _, nm := range names {
+					if cal.Name() == nm {
+						// must be invoked on a bufferedWriter
+						if se, ok := ast.Unparen(c.Fun).(*ast.SelectorExpr); ok && isNamed(info.TypeOf(se.X), modPath+"/"+httpPkgRel, "bufferedWriter") {
+							found = true
+						}
+					}
+				}
+			}
+			if !found && d < 2 {
+				if cfd := declOfFn[cal]; cfd != nil && cfd.Recv == nil {
+					if reaches(cfd, names, d+1) {
+						found = true
+					}
+				}
+			}
+			return true
+		})
+		return found
+	}
+	for _, fd := range funcDecls(pkg) {
+		if fd.Name.Name != "GetName" || fd.Recv == nil || len(fd.Body.List) != 1 {
+			continue
+		}
+		rs, ok := fd.Body.List[0].(*ast.ReturnStmt)
+		if !ok || len(rs.Results) != 1 {
+			continue
+		}
+		tv, ok := info.Types[rs.Results[0]]
+		if !ok || tv.Value == nil {
+			continue
+		}
+		name := strings.Trim(tv.Value.ExactString(), "\"")
+		names, ok := want[name]
+		if !ok {
+			continue
+		}
+		recv := recvTypeName(fd)
+		// only method objects that hold the response writer
+		nt, _ := pkg.Types.Scope().Lookup(recv).(*types.TypeName)
+		if nt == nil {
+			continue
+		}
+		st, ok := nt.Type().Underlying().(*types.Struct)
+		if !ok {
+			continue
+		}
+		holds := false
+		for i := 0; i < st.NumFields(); i++ {
+			if isNamed(st.Field(i).Type(), modPath+"/"+httpPkgRel, "bufferedWriter") {
+				holds = true
+			}
+		}
+		if !holds {
+			continue
+		}
+		callFd := findFunc(pkg, recv, "Call")
+		if callFd == nil {
+			continue
+		}
+		key := fmt.Sprintf("%s#script-method:%s", funcKey(pkg, callFd), name)
+		if reaches(callFd, names, 0) {
+			r.ok(key, callFd.Pos(), fmt.Sprintf("$response->%s() performs bufferedWriter.%s", name, strings.Join(names, "/")))
+		} else {
+			r.bad(key, callFd.Pos(), fmt.Sprintf("$response->%s() never calls bufferedWriter.%s: the script-visible operation no longer does what its name says (e.g. writeHeader must commit immediately, status must only record)", name, strings.Join(names, "/")))
+		}
+	}
+
+	c13MiddlewareOrder(r, pkg)
+
 	// PAIR
 	r.curRule = "C13-PAIR"
 	begin := pkg.Types.Scope().Lookup("beginResponse")
@@ -614,5 +712,162 @@ func c13Pair(r *Run, pkg *packages.Package, u funcUnit, begin types.Object, comm
 		} else {
 			r.bad(key, p, msg)
 		}
+	}
+}
+
+// c13MiddlewareOrder recognises "sort entries by priority, then wrap in a loop" and computes the
+// resulting execution order from (comparator, stability, loop direction).
+func c13MiddlewareOrder(r *Run, pkg *packages.Package) {
+	r.curRule = "C13-MWORDER"
+	info := pkg.TypesInfo
+	fd := findFunc(pkg, "", "applyMiddlewares")
+	if fd == nil {
+		r.info("applyMiddlewares", 0, "function not found: middleware ordering not judged")
+		return
+	}
+	key := funcKey(pkg, fd) + "#order"
+	var cmpOp token.Token
+	stable, sortSeen := false, false
+	var lessLhsIdx, lessRhsIdx string
+	ast.Inspect(fd.Body, func(n ast.Node) bool {
+		c, ok := n.(*ast.CallExpr)
+		if !ok {
+			return true
+		}
+		cal, ok := calleeOf(info, c).(*types.Func)
+		if !ok || cal.Pkg() == nil || cal.Pkg().Path() != "sort" || len(c.Args) != 2 {
+			return true
+		}
+		lit, ok := c.Args[1].(*ast.FuncLit)
+		if !ok || len(lit.Body.List) != 1 {
+			return true
+		}
+		rs, ok := lit.Body.List[0].(*ast.ReturnStmt)
+		if !ok || len(rs.Results) != 1 {
+			return true
+		}
+		be, ok := ast.Unparen(rs.Results[0]).(*ast.BinaryExpr)
+		if !ok {
+			return true
+		}
+		idxOf := func(e ast.Expr) string {
+			se, ok := ast.Unparen(e).(*ast.SelectorExpr)
+			if !ok || se.Sel.Name != "priority" {
+				return ""
+			}
+			ix, ok := ast.Unparen(se.X).(*ast.IndexExpr)
+			if !ok {
+				return ""
+			}
+			return exprStr(ix.Index)
+		}
+		lessLhsIdx, lessRhsIdx = idxOf(be.X), idxOf(be.Y)
+		if lessLhsIdx == "" || lessRhsIdx == "" {
+			return true
+		}
+		sortSeen = true
+		cmpOp = be.Op
+		stable = cal.Name() == "SliceStable"
+		// parameter names of the less function: first param is i
+		ps := paramList(lit.Type.Params)
+		if len(ps) == 2 && ps[0] != nil && lessLhsIdx == ps[1].Name && lessRhsIdx == ps[0].Name {
+			// less(i,j) compares [j] with [i]: mirror
+			switch cmpOp {
+			case token.LSS:
+				cmpOp = token.GTR
+			case token.GTR:
+				cmpOp = token.LSS
+			case token.LEQ:
+				cmpOp = token.GEQ
+			case token.GEQ:
+				cmpOp = token.LEQ
+			}
+		}
+		return true
+	})
+	dir := ""
+	ast.Inspect(fd.Body, func(n ast.Node) bool {
+		switch x := n.(type) {
+		case *ast.ForStmt:
+			if inc, ok := x.Post.(*ast.IncDecStmt); ok {
+				wraps := false
+				ast.Inspect(x.Body, func(m ast.Node) bool {
+					if as, ok := m.(*ast.AssignStmt); ok && len(as.Rhs) == 1 {
+						if _, ok := ast.Unparen(as.Rhs[0]).(*ast.CallExpr); ok {
+							wraps = true
+						}
+					}
+					return true
+				})
+				if wraps {
+					if inc.Tok == token.DEC {
+						dir = "backward"
+					} else {
+						dir = "forward"
+					}
+				}
+			}
+		case *ast.RangeStmt:
+			wraps := false
+			ast.Inspect(x.Body, func(m ast.Node) bool {
+				if as, ok := m.(*ast.AssignStmt); ok && len(as.Rhs) == 1 {
+					if _, ok := ast.Unparen(as.Rhs[0]).(*ast.CallExpr); ok {
+						wraps = true
+					}
+				}
+				return true
+			})
+			if wraps {
+				dir = "forward"
+			}
+		}
+		return true
+	})
+	if !sortSeen || dir == "" || (cmpOp != token.LSS && cmpOp != token.GTR) {
+		r.info(key, fd.Pos(), "shape not recognised (expected: sort by .priority with < or >, then a wrapping loop): not judged")
+		return
+	}
+	// model: entries (priority, registration index); the last wrapped handler runs first
+	type ent struct{ p, i int }
+	sample := []ent{{5, 0}, {0, 1}, {-1, 2}, {0, 3}, {1, 4}}
+	sorted := append([]ent{}, sample...)
+	less := func(a, b ent) bool {
+		if cmpOp == token.LSS {
+			return a.p < b.p
+		}
+		return a.p > b.p
+	}
+	// stable insertion sort = what SliceStable guarantees
+	for i := 1; i < len(sorted); i++ {
+		for j := i; j > 0 && less(sorted[j], sorted[j-1]); j-- {
+			sorted[j], sorted[j-1] = sorted[j-1], sorted[j]
+		}
+	}
+	var wrapOrder []ent
+	if dir == "forward" {
+		wrapOrder = sorted
+	} else {
+		for i := len(sorted) - 1; i >= 0; i-- {
+			wrapOrder = append(wrapOrder, sorted[i])
+		}
+	}
+	var exec []ent // outermost first = reverse of wrapping order
+	for i := len(wrapOrder) - 1; i >= 0; i-- {
+		exec = append(exec, wrapOrder[i])
+	}
+	okOrder := true
+	for i := 1; i < len(exec); i++ {
+		if exec[i-1].p > exec[i].p || (exec[i-1].p == exec[i].p && exec[i-1].i > exec[i].i) {
+			okOrder = false
+		}
+	}
+	desc := fmt.Sprintf("comparator %s, %s sort, %s wrapping", cmpOp, map[bool]string{true: "stable", false: "unstable"}[stable], dir)
+	switch {
+	case !stable:
+		r.bad(key, fd.Pos(), desc+": an unstable sort leaves the order of equal priorities unspecified (ties must run in registration order)")
+	case !okOrder:
+		r.bad(key, fd.Pos(), fmt.Sprintf("%s gives execution order %v on priorities [5 0 -1 0 1]: not ascending priority with ties in registration order", desc, exec))
+	default:
+		r.ok(key, fd.Pos(), desc+": ascending priority outermost-first, ties in registration order")
 	}
 }
